@@ -8,6 +8,8 @@ set -u
 D="$1"; PKG="$2"; DEMO="$3"; shift 3
 WT="$D/wt"; OUT="$D/out"
 export CARGO_NET_OFFLINE=true
+# trustfall_stubgen tests build under $TMPDIR/trustfall_stubgen: keep concurrent worktrees apart
+mkdir -p "$D/tmp"; export TMPDIR="$D/tmp"
 cd "$WT" || exit 2
 git diff > "$D/verify_tracked.diff"
 if ! diff -q <(grep -v '^index ' "$D/verify_tracked.diff") <(grep -v '^index ' "$OUT/patch.diff") >/dev/null; then
@@ -21,14 +23,6 @@ PASS=$(grep -E "^test result: ok" "$D/verify_with.log" | awk '{s+=$4} END{print 
 FAILN=$(grep -E "^test result:" "$D/verify_with.log" | awk '{s+=$6} END{print s+0}')
 echo "with-change: passed=$PASS failed=$FAILN"
 echo "failed tests:"; grep -E "^test .* \.\.\. FAILED" "$D/verify_with.log" | head -20
-if grep -q "^test tests::.* FAILED" "$D/verify_with.log" && grep -q "trustfall_stubgen" "$D/verify_with.log"; then
-  # trustfall_stubgen's tests build in a fixed /tmp/trustfall_stubgen/... directory: concurrent
-  # runs from other worktrees collide. Re-run them alone (serialised by a lock) before judging.
-  for i in 1 2 3; do
-    echo "== stubgen tests failed in the workspace run; re-running them serialised (attempt $i)"
-    if flock /tmp/seedwork/stubgen.lock cargo test -p trustfall_stubgen --offline >"$D/verify_stubgen.log" 2>&1; then echo "stubgen rerun: ok"; grep -E "^test result:" "$D/verify_stubgen.log"; break; else echo "stubgen rerun: FAILED"; fi
-  done
-fi
 echo "== without change: demonstration only"
 git apply -R "$OUT/patch.diff" || { echo "cannot reverse"; exit 2; }
 cargo test -p "$PKG" --offline --test "$DEMO" "$@" >"$D/verify_without.log" 2>&1
